@@ -211,8 +211,14 @@ def run(ctx, rep):
                     names_ = None
                     fail(ra, ctx, f, c.node, f"setter called in a loop over a list of names that does not fold to constants: {e}")
                 extra_c = [(x, p_) for x, p_ in c.cond if x[0] != "inloop"]
-                if extra_c:
-                    fail(ra, ctx, f, c.node, "fields are only looked for under a condition")
+                for x, p_ in extra_c:
+                    # `if name != "resolution":` inside the loop: a filter on the constant list of names
+                    sx = strip(x)
+                    if sx[0] == "cmp" and sx[1] == "==" and a in (sx[2], sx[3]) and (sx[2][0] == "const" or sx[3][0] == "const") and names_ is not None:
+                        cst = sx[2][1] if sx[2][0] == "const" else sx[3][1]
+                        names_ = [nm for nm in names_ if (nm == cst) == p_]
+                    else:
+                        fail(ra, ctx, f, c.node, "fields are only looked for under a condition")
                 for nm in (names_ or []):
                     called.setdefault(nm, []).append((c.fn[1], c))
                 continue
